@@ -1,0 +1,29 @@
+//go:build verif
+
+// Contracts for the deductive verifier in /verif (govc). Comment-only.
+
+package version
+
+//@ # ---- snapshot reads (C15): a key that lives in several files of the version is loaded from all of them ----
+//@ stable snapshot.version
+//@ stable snapshot.cache
+//@ stable snapshot.familyName
+//@ # the candidate files of a key in a version (decided by FindFiles: min <= key <= max per file)
+//@ uf versionFiles(ref, uint32) []*FileMeta
+//@ func Version.FindFiles
+//@   ensures result == versionFiles(self, key) && forall(i, 0, len(result), result[i] != nil)
+//@ end
+//@ # client contract of the loader callback: it consumes the value, it does not reach into the version's file list
+//@ func snapshot.Load@loader
+//@   modifies nothing
+//@ end
+//@ func snapshot.Load
+//@   prop C15
+//@   arith math
+//@   requires s.version != nil && s.cache != nil && loader != nil
+//@   modifies nothing
+//@   ensures[no_error_means_every_candidate_file_was_consulted] result == nil ==> calls(s.cache.GetReader) == old(calls(s.cache.GetReader)) + len(versionFiles(s.version, key))
+//@   loop 1 invariant rangeindex >= -1 && rangeindex < len(files) && files == versionFiles(s.version, key)
+//@   loop 1 invariant calls(s.cache.GetReader) == old(calls(s.cache.GetReader)) + rangeindex + 1
+//@   loop 1 invariant forall(i, 0, len(files), files[i] != nil)
+//@ end
